@@ -148,6 +148,17 @@ CASES = [
     ("benign-corner-factor", ["C18"], "velocity.py", "    prefactor = 4 * plate_speed / (np.pi * (h**2 + v**2) ** 2)", "    r2 = h**2 + v**2\n    prefactor = 4 * plate_speed / (np.pi * r2 * r2)", B),
     ("benign-config-local", ["C19"], "io.py", "    n_provided = len(_params[\"disl_coefficients\"])", "    coeffs = _params[\"disl_coefficients\"]\n    n_provided = len(coeffs)", B),
     ("benign-gbs-where", ["C09", "C01"], "utils.py", "    fractions[mask] = gbs_threshold / n_grains\n", "    fractions[:] = np.where(mask, gbs_threshold / n_grains, fractions)\n", B),
+    ("benign-reader-comprehension", ["C16"], "io.py", "                tuple(\n                    map(\n                        ft.partial(\n                            _parse_scsv_cell, f, missingstr=missingstr, fillval=fill\n                        ),\n                        x,\n                    )\n                )\n",
+     "                tuple(\n                    _parse_scsv_cell(f, cell, missingstr=missingstr, fillval=fill)\n                    for cell in x\n                )\n", B),
+    ("benign-writer-missing-local", ["C16"], "io.py", "            writer.writerow(names)\n", "            writer.writerow(names)\n            missing = schema[\"missing\"]\n", B),
+    ("benign-header-linesep-local", ["C16"], "io.py", "    stream.write(\"---\" + os.linesep)\n    if comments is not None:", "    nl = os.linesep\n    stream.write(f\"---{nl}\")\n    if comments is not None:", B),
+    ("benign-output-explicit-default", ["C19"], "io.py", "    _output = toml.setdefault(\"output\", {})\n", "    if \"output\" not in toml:\n        toml[\"output\"] = {}\n    _output = toml[\"output\"]\n", B),
+    ("benign-output-options-else", ["C19"], "io.py", "        output_opts[level] = list(phase_assemblage)\n        return\n    try:", "        output_opts[level] = [p for p in phase_assemblage]\n        return None\n    try:", B),
+    ("benign-append-helper", ["C01", "C07", "C08"], "minerals.py", "        self.orientations.append(orientations)\n        self.fractions.append(fractions)\n        return deformation_gradient\n",
+     "        self._store_snapshot(orientations, fractions)\n        return deformation_gradient\n\n    def _store_snapshot(self, orientations, fractions):\n        self.orientations.append(orientations)\n        self.fractions.append(fractions)\n", B),
+    ("benign-density-counter-names", ["C20"], "stats.py", "    counters = np.column_stack([x_counters, y_counters, z_counters])", "    counters = np.stack([x_counters, y_counters, z_counters], axis=1)", B),
+    ("benign-strain-final-local", ["C19"], "io.py", "    _input[\"strain_final\"] = _input.get(\"strain_final\", np.inf)\n    if not isinstance(_input[\"strain_final\"], float | int):", "    strain_final = _input.get(\"strain_final\", np.inf)\n    _input[\"strain_final\"] = strain_final\n    if not isinstance(strain_final, (float, int)):", B),
+    ("benign-parse-phase-match", ["C19"], "io.py", "    elif isinstance(ϕ, _core.MineralPhase):\n        return ϕ\n", "    elif isinstance(ϕ, _core.MineralPhase):\n        phase = ϕ\n        return phase\n", B),
     ("benign-resample-compose", ["C15"], "stats.py", "        out_orientations[i, ...] = orient[sort_ascending][count_less]\n        out_fractions[i, ...] = frac_ascending[count_less]",
      "        selected = sort_ascending[count_less]\n        out_orientations[i, ...] = orient[selected]\n        out_fractions[i, ...] = frac[selected]", B),
     ("benign-asdict-getattr", ["C19"], "core.py", "        return asdict(self)", "        return {k: getattr(self, k) for k in self.__dataclass_fields__}", B),
